@@ -95,6 +95,7 @@ int main(int argc, char** argv) {
         if (pid == 0) {
             close(fd[0]); dup2(fd[1], 3); alarm(60);
             std::set_terminate(on_terminate);
+            errno = EINVAL;          // stale errno on entry must not matter
             std::string r = guarded([&]() { return call(a); });
             r += "\n"; (void)!write(3, r.c_str(), r.size());
 #ifdef VERIF_COV
